@@ -31,6 +31,7 @@ NOT_COVERED = [
     "score_fn (jnp reductions over checkpoints) beyond 'scores are finite reals' as a precondition",
     "float32 overflow of score products to inf (int(inf) raises); scores assumed < 2^100",
     "the loop over groups is verified under a loop contract for a symbolic number of groups, where redist_dict is framed by alloc_fn's contract; the REAL layers_and_axes / create_groups / create_redist / alloc_fn are executed end to end (post-condition on the returned dictionary) on three concrete layer sets only (1 axis; 2 axes of one dim; 2 layers with free dims) - larger sets exceed the path budget",
+    "the end-to-end tasks follow the iteration order CPython gives the real set of layer names in the checking process (string hashing is not pinned, so the obligation count varies slightly between runs); the one-symbolic-group task is order-independent",
 ]
 
 
